@@ -86,8 +86,9 @@ def run(chk):
     chk.rule("C06.R4", "the default specification selects the network parameters only, for every term", floor=3)
     Params = E.Params
 
-    def mask_tree(sel):
-        return Params.make(nn_params=bool(sel['nn_params']), eq_params={k: bool(sel[k]) for k in EQ_KEYS})
+    def mask_tree(sel, order=EQ_KEYS):
+        # the mask is matched with the parameters by key: its own insertion order is immaterial
+        return Params.make(nn_params=bool(sel['nn_params']), eq_params={k: bool(sel[k]) for k in order})
 
     def to_str(sel):
         eq = [sel[k] for k in EQ_KEYS]
@@ -106,6 +107,7 @@ def run(chk):
         for p in pairs:
             a = dict(allT); a[p] = False; assigns.append(a)
             a = dict(allF); a[p] = True; assigns.append(a)
+        toggles = list(assigns)      # these also run with a reordered mask and with a parameter batch
         if thorough:
             # all assignments restricted to one term at a time (2^3 per term) on top of two backgrounds
             for t in terms:
@@ -122,18 +124,26 @@ def run(chk):
             if k not in seen:
                 seen.add(k); uniq.append(a)
         base_formulas = None
-        for kind in (('PINN', 'SPINN') if (thorough and eq_type != 'ODE') else ('PINN',)):
-            conf = tuple(CONF[t] for t in terms if not (kind == 'SPINN' and t == 'observations'))
-            for a in uniq:
+        plan = [(kind, a, EQ_KEYS, ()) for kind in (('PINN', 'SPINN') if (thorough and eq_type != 'ODE') else ('PINN',)) for a in uniq]
+        plan += [('PINN', a, EQ_KEYS[::-1], ()) for a in toggles]
+        plan += [('PINN', a, EQ_KEYS, pk) for a in toggles for pk in (('nu',), ('nu', 'th'))]
+        for kind, a, order, pk in plan:
+            # the normalisation term cannot be combined with a parameter batch (its samples and the parameter rows are
+            # vmapped together; see DESIGN section 6), so it is left out of those configurations
+            conf = tuple(CONF[t] for t in terms if not (kind == 'SPINN' and t == 'observations') and not (pk and t == 'norm_loss'))
+            if True:
                 cfg = {"loss": eq_type, "net": kind,
                        "selected": sorted(f"{t}:{g}" for (t, g), v in a.items() if v)}
+                if order != EQ_KEYS:
+                    cfg["mask_key_order"] = list(order)
+                if pk:
+                    cfg["param_batch"] = list(pk)
                 res = {}
 
-                def build(a=a, eq_type=eq_type, kind=kind, conf=conf, terms=terms, dkcls=dkcls):
-                    masks = {t: mask_tree({g: a[(t, g)] for g in GROUPS}) for t in terms}
+                def build(a=a, eq_type=eq_type, kind=kind, conf=conf, terms=terms, dkcls=dkcls, order=order, pk=pk):
+                    masks = {t: mask_tree({g: a[(t, g)] for g in GROUPS}, order) for t in terms}
                     dk = dkcls(**masks)
                     S = SingleLoss(E, eq_type, kind, d=2, m_u=1, m_res=1, terms=conf, eq_keys=EQ_KEYS, derivative_keys=dk)
-                    pk = ()
                     total, out = S.evaluate(param_keys=pk)
                     return {t: scalar_of(out[t], t) for t in terms if CONF[t] in conf}
 
@@ -155,11 +165,11 @@ def run(chk):
                     return f"{n} (term, group) occurrences routed as specified"
                 chk.run("C06.R1", SITE[eq_type] + "->_set_derivatives", cfg, go_route, construct="routing")
 
-                def go_value(res=res, eq_type=eq_type, kind=kind):
+                def go_value(res=res, eq_type=eq_type, kind=kind, pk=pk):
                     if 'f' not in res:
                         raise Inconclusive("formulas unavailable")
                     cur = {t: canon(p) for t, p in res['f'].items()}
-                    key = (eq_type, kind)
+                    key = (eq_type, kind, pk)
                     ref = go_value.base.setdefault(key, cur)
                     for t in cur:
                         if cur[t] != ref[t]:
